@@ -3,6 +3,7 @@ package drv
 import (
 	"fmt"
 	"math/rand"
+	"strings"
 
 	"github.com/Factom-Asset-Tokens/factom"
 	"github.com/pegnet/pegnet/modules/opr"
@@ -11,6 +12,7 @@ import (
 	"github.com/pegnet/pegnetd/node/pegnet"
 
 	"verifharness/chain"
+	"verifharness/scen"
 )
 
 // BuiltinScenario returns the activation schedule and the abstract blocks of a
@@ -34,6 +36,14 @@ import (
 //	                (144, 288), equal X->PEG requests in the bank era (separate
 //	                entries and twice inside one batch), equal grades everywhere.
 func BuiltinScenario(name string, seed int64) (chain.Schedule, []chain.AbsBlock, error) {
+	// "scen:<name>" selects a chain of the shared scenario library (harness/scen)
+	if strings.HasPrefix(name, "scen:") {
+		sc, err := scen.Build(strings.TrimPrefix(name, "scen:"), seed)
+		if err != nil {
+			return chain.Schedule{}, nil, err
+		}
+		return sc.Schedule, sc.Blocks, nil
+	}
 	switch name {
 	case "eras":
 		return scenarioEras(seed)
